@@ -936,3 +936,359 @@ def gen_texthdr(report):
     out += "def untranslated : List String := [%s]\n\nend VerifModel.Gen.TextHeader\n" % ", ".join('"%s"' % n for n in untranslated)
     report["texthdr"] = {"functions": 5, "untranslated": untranslated}
     return T.write_if_changed(os.path.join(T.GEN, "TextHeader.lean"), out)
+
+
+# ----------------------------------------------------------------------------------------
+# verif/aggregator.py (C15): the `__call__` of every aggregator class in its 1-d reading (axis=None), the list of
+# class names `get` chooses from, the range test of Quantile.__init__.  Values computed from the array are
+# `Option XR` (none = NumPy raises); the NumPy calls are the primitives of Model/AggPrim.lean.
+# ----------------------------------------------------------------------------------------
+ONUM, MASK = "onum", "mask"
+AGG_HEADER = """-- GENERATED by harness/translate.py from verif/aggregator.py (the __call__ of every aggregator class, axis=None; class names; Quantile.__init__) — do not edit; regenerated on every check.
+import VerifModel.Model.AggPrim
+set_option linter.unusedVariables false
+open VerifModel
+namespace VerifModel.Gen.Agg
+
+"""
+AGG_RED = {"mean": "mean", "median": "median", "min": "min", "max": "max", "amin": "min", "amax": "max", "std": "std T",
+           "var": "var", "sum": "sum", "nanmean": "nanmean", "nanmedian": "nanmedian", "nanmin": "nanmin",
+           "nanmax": "nanmax", "nanstd": "nanstd T", "nanvar": "nanvar", "nansum": "nansum"}
+AGG_LEVEL = {"percentile": "percentile", "quantile": "quantile", "nanpercentile": "nanpercentile"}
+AGG_OPS = {ast.Add: "add", ast.Sub: "sub", ast.Mult: "mul", ast.Div: "div"}
+
+
+class _AggTr(object):
+    def __init__(self, T, axis, level_attrs, module_funcs, util_funcs):
+        self.T, self.axis, self.level_attrs = T, axis, level_attrs
+        self.module_funcs, self.util_funcs = module_funcs, util_funcs
+
+    def with_axis(self, axis):
+        return _AggTr(self.T, axis, self.level_attrs, self.module_funcs, self.util_funcs)
+
+    # ---- helpers
+    def is_axis(self, node):
+        return (isinstance(node, ast.Name) and node.id == self.axis) or (isinstance(node, ast.Constant) and node.value is None)
+
+    def axis_test(self, test):
+        """truth value of a test on the axis argument under axis=None, or None"""
+        if isinstance(test, ast.UnaryOp) and isinstance(test.op, ast.Not):
+            v = self.axis_test(test.operand)
+            return None if v is None else not v
+        if isinstance(test, ast.Compare) and len(test.ops) == 1 and isinstance(test.left, ast.Name) \
+                and test.left.id == self.axis and isinstance(test.comparators[0], ast.Constant) \
+                and test.comparators[0].value is None:
+            if isinstance(test.ops[0], (ast.Is, ast.Eq)):
+                return True
+            if isinstance(test.ops[0], (ast.IsNot, ast.NotEq)):
+                return False
+        return None
+
+    def num(self, node, env):
+        """an expression that does not depend on the array: literals and self.<level>"""
+        ctx = Ctx(vars={k: NUM for k, (_, t) in env.items() if t == NUM},
+                  self_attrs=dict((a, ("level", NUM)) for a in self.level_attrs))
+        e, t = px.tr_expr(node, ctx)
+        if t != NUM:
+            raise Untranslatable("level of type %s" % t)
+        return e
+
+    def strip_axis(self, call):
+        """positional arguments of a call whose only keyword may be axis=<the axis parameter>"""
+        for kw in call.keywords:
+            if kw.arg != "axis" or not self.is_axis(kw.value):
+                raise Untranslatable("keyword %s in call to %s" % (kw.arg, px.dotted(call.func)))
+        args = list(call.args)
+        if len(args) >= 2 and isinstance(args[-1], ast.Name) and args[-1].id == self.axis:
+            args = args[:-1]
+        return args
+
+    def index(self, base, k):
+        cv = px.const_value(k)
+        if cv is None or cv.denominator != 1:
+            raise Untranslatable("index that is not an integer literal")
+        return "(AggPrim.idx %s (%d))" % (base, cv.numerator), ONUM
+
+    # ---- expressions
+    def expr(self, node, env, depth=0):
+        if isinstance(node, ast.Name):
+            if node.id in env:
+                return env[node.id]
+            raise Untranslatable("unknown name %s" % node.id)
+        if isinstance(node, ast.Constant) or (isinstance(node, ast.Attribute) and px.dotted(node) and
+                                              (px.dotted(node).startswith("self.") or px.dotted(node).startswith("np."))):
+            return self.num(node, env), NUM
+        if isinstance(node, ast.UnaryOp):
+            if isinstance(node.op, ast.Invert):
+                e, t = self.expr(node.operand, env, depth)
+                if t == MASK:
+                    return "(AggPrim.bnot %s)" % e, MASK
+                raise Untranslatable("~ on %s" % t)
+            if isinstance(node.op, ast.USub):
+                if px.const_value(node) is not None:
+                    return self.num(node, env), NUM
+                e, t = self.expr(node.operand, env, depth)
+                if t == ONUM:
+                    return "(AggPrim.neg %s)" % e, ONUM
+                if t == VEC:
+                    return "(Vec.neg %s)" % e, VEC
+                if t == NUM:
+                    return "(XR.neg %s)" % e, NUM
+            raise Untranslatable("unary operator")
+        if isinstance(node, ast.BinOp):
+            opn = AGG_OPS.get(type(node.op))
+            if opn is None:
+                raise Untranslatable("operator %s" % type(node.op).__name__)
+            a, at = self.expr(node.left, env, depth)
+            b, bt = self.expr(node.right, env, depth)
+            if at == NUM and bt == NUM:
+                return self.num(node, env), NUM
+            if at in (ONUM, NUM) and bt in (ONUM, NUM):
+                a = a if at == ONUM else "(some %s)" % a
+                b = b if bt == ONUM else "(some %s)" % b
+                return "(AggPrim.%s %s %s)" % (opn, a, b), ONUM
+            if at == VEC and bt == VEC:
+                return "(Vec.%s %s %s)" % (opn, a, b), VEC
+            if at == VEC and bt == NUM:
+                return "(Vec.%sS %s %s)" % (opn, a, b), VEC
+            raise Untranslatable("%s on %s, %s" % (opn, at, bt))
+        if isinstance(node, ast.Compare) and len(node.ops) == 1 and isinstance(node.ops[0], (ast.Eq, ast.NotEq)):
+            a, at = self.expr(node.left, env, depth)
+            c = node.comparators[0]
+            if at == MASK and isinstance(c, ast.Constant) and c.value in (0, 1, True, False) and not isinstance(c.value, float):
+                flip = (not bool(c.value)) != isinstance(node.ops[0], ast.NotEq)
+                return ("(AggPrim.bnot %s)" % a if flip else a), MASK
+            raise Untranslatable("comparison on %s" % at)
+        if isinstance(node, ast.Subscript):
+            b, bt = self.expr(node.value, env, depth)
+            if bt != VEC:
+                raise Untranslatable("subscript of %s" % bt)
+            return self.index(b, node.slice)
+        if isinstance(node, ast.Call):
+            return self.call(node, env, depth)
+        raise Untranslatable(type(node).__name__)
+
+    def call(self, node, env, depth):
+        if isinstance(node.func, ast.Attribute) and node.func.attr in ("flatten", "ravel", "copy") \
+                and not node.args and not node.keywords and px.dotted(node.func.value) not in ("np", "numpy"):
+            b, bt = self.expr(node.func.value, env, depth)
+            if bt == VEC:
+                return b, VEC
+            raise Untranslatable(".%s() of %s" % (node.func.attr, bt))
+        fn = px.dotted(node.func)
+        if fn is None:
+            raise Untranslatable("call")
+        args = self.strip_axis(node)
+        short = fn.replace("numpy.", "np.")
+        if short.startswith("np."):
+            f = short[3:]
+            vals = [self.expr(a, env, depth) for a in args[:1]]
+            if not vals:
+                raise Untranslatable("call %s without arguments" % fn)
+            a, at = vals[0]
+            if f in AGG_RED and len(args) == 1 and at == VEC:
+                return "(AggPrim.%s %s)" % (AGG_RED[f], a), ONUM
+            if f in ("sum", "count_nonzero") and len(args) == 1 and at == MASK:
+                return "(AggPrim.count %s)" % a, ONUM
+            if f == "isnan" and len(args) == 1 and at == VEC:
+                return "(AggPrim.isnan %s)" % a, MASK
+            if f == "logical_not" and len(args) == 1 and at == MASK:
+                return "(AggPrim.bnot %s)" % a, MASK
+            if f in ("abs", "absolute", "fabs") and len(args) == 1:
+                if at == VEC:
+                    return "(Vec.abs %s)" % a, VEC
+                if at == ONUM:
+                    return "(AggPrim.abs %s)" % a, ONUM
+            if f == "sort" and len(args) == 1 and at == VEC:
+                return "(Vec.sort %s)" % a, VEC
+            if f in AGG_LEVEL and len(args) == 2 and at == VEC:
+                return "(AggPrim.%s %s %s)" % (AGG_LEVEL[f], a, self.num(args[1], env)), ONUM
+            if f == "take" and len(args) == 2 and at == VEC:
+                return self.index(a, args[1])
+            raise Untranslatable("call %s on %s" % (fn, at))
+        if fn == "abs" and len(args) == 1:
+            a, at = self.expr(args[0], env, depth)
+            if at == VEC:
+                return "(Vec.abs %s)" % a, VEC
+            if at == ONUM:
+                return "(AggPrim.abs %s)" % a, ONUM
+        helper = None
+        if fn in self.module_funcs:
+            helper = self.module_funcs[fn]
+        elif fn.startswith("verif.util.") or fn.startswith("util."):
+            helper = self.util_funcs.get(fn.split(".")[-1])
+        if helper is not None:
+            if depth > 3:
+                raise Untranslatable("helper nesting too deep at %s" % fn)
+            params = [p.arg for p in helper.args.args]
+            haxis = None
+            if helper.args.defaults and len(helper.args.defaults) == 1 and isinstance(helper.args.defaults[0], ast.Constant) \
+                    and helper.args.defaults[0].value is None:
+                haxis, params = params[-1], params[:-1]
+            elif helper.args.defaults:
+                raise Untranslatable("helper %s: defaults" % fn)
+            if len(params) != len(args) or helper.args.vararg or helper.args.kwarg:
+                raise Untranslatable("helper %s: argument list" % fn)
+            vals = [self.expr(a, env, depth) for a in args]
+            inner = dict(zip(params, [(px.lname(p), t) for p, (_, t) in zip(params, vals)]))
+            body = self.with_axis(haxis).block(_strip_doc(helper.body), inner, depth + 1, 2)
+            lets = "".join("let %s := %s; " % (px.lname(p), e) for p, (e, _) in zip(params, vals))
+            return "(%s(\n%s))" % (lets, body), ONUM
+        raise Untranslatable("call %s" % fn)
+
+    # ---- statements
+    def block(self, stmts, env, depth=0, indent=1):
+        pad = "  " * indent
+        if not stmts:
+            raise Untranslatable("control reaches end of function")
+        s, tail = stmts[0], stmts[1:]
+        if isinstance(s, ast.Pass):
+            return self.block(tail, env, depth, indent)
+        if isinstance(s, ast.Return) and s.value is not None:
+            e, t = self.expr(s.value, env, depth)
+            if t == NUM:
+                e, t = "(some %s)" % e, ONUM
+            if t != ONUM:
+                raise Untranslatable("returns %s" % t)
+            return pad + e
+        if isinstance(s, ast.Assign) and len(s.targets) == 1 and isinstance(s.targets[0], ast.Name):
+            name = s.targets[0].id
+            if name == self.axis:
+                raise Untranslatable("assignment to the axis argument")
+            e, t = self.expr(s.value, env, depth)
+            env2 = dict(env)
+            env2[name] = (px.lname(name), t)
+            return pad + "let %s := %s\n" % (px.lname(name), e) + self.block(tail, env2, depth, indent)
+        if isinstance(s, ast.If):
+            v = self.axis_test(s.test)
+            if v is None:
+                raise Untranslatable("condition that is not a test of the axis argument")
+            return self.block((s.body if v else s.orelse) + tail, env, depth, indent)
+        raise Untranslatable("statement %s" % type(s).__name__)
+
+
+def _alpha_dump(fn_node, keep):
+    """ast.dump of a function body with its local names renamed in order of appearance"""
+    node = copy.deepcopy(fn_node)
+    names = {}
+    for a in node.args.args:
+        names.setdefault(a.arg, "v%d" % len(names))
+        a.arg = names[a.arg]
+    for n in ast.walk(node):
+        if isinstance(n, ast.Name) and n.id not in keep:
+            names.setdefault(n.id, "v%d" % len(names))
+            n.id = names[n.id]
+    return ast.dump(ast.Module(body=_strip_doc(node.body), type_ignores=[]))
+
+
+AGG_NAME_TEMPLATE = "def name(cls):\n    return cls.__name__.lower()\n"
+AGG_GETALL_TEMPLATE = ("def get_all():\n    temp = inspect.getmembers(sys.modules[__name__], inspect.isclass)\n"
+                       "    return [i[1] for i in temp if i[0] != \"Aggregator\"]\n")
+
+
+def _same_as(fn_node, template, keep):
+    t = ast.parse(template).body[0]
+    return fn_node is not None and _alpha_dump(fn_node, keep) == _alpha_dump(t, keep)
+
+
+def gen_agg(report):
+    T = _T()
+    out = AGG_HEADER
+    untranslated = []
+    sig = "(T : Tr) (level : XR) (array : Vec) : Option XR"
+    classes = []
+
+    def fail(item, e, stub):
+        untranslated.append(item)
+        report["untranslated"].append("agg.%s: %s" % (item, e))
+        return "-- untranslated: %s\n%s\n\n" % (e, stub)
+
+    try:
+        tree = T.parse("verif/aggregator.py")
+        util_tree = T.parse("verif/util.py")
+        module_funcs = dict((n.name, n) for n in tree.body if isinstance(n, ast.FunctionDef))
+        util_funcs = dict((n.name, n) for n in util_tree.body if isinstance(n, ast.FunctionDef))
+        by_name = dict((n.name, n) for n in tree.body if isinstance(n, ast.ClassDef))
+        classes = [n for n in tree.body if isinstance(n, ast.ClassDef) and n.name != "Aggregator"]
+    except (SyntaxError, IOError, OSError) as e:
+        out += fail("module", e, "")
+        tree = None
+
+    def resolve(cls, meth):
+        """the method as the class or its bases within the module define it"""
+        seen = 0
+        while cls is not None and seen < 6:
+            f = px.find_func(cls.body, meth)
+            if f is not None:
+                return f
+            b = cls.bases[0] if len(cls.bases) == 1 and isinstance(cls.bases[0], ast.Name) else None
+            cls = by_name.get(b.id) if b is not None else None
+            seen += 1
+        return None
+
+    rows = []
+    for cls in classes:
+        lower = cls.name.lower()
+        stub = "def c_%s %s :=\n  none" % (lower, sig)
+        nargs = 0
+        try:
+            init = resolve(cls, "__init__")
+            level_attrs = []
+            if init is not None:
+                params = [a.arg for a in init.args.args][1:]
+                nargs = len(params) - len(init.args.defaults)
+                for s in ast.walk(init):
+                    if isinstance(s, ast.Assign) and len(s.targets) == 1 and px.dotted(s.targets[0]) \
+                            and px.dotted(s.targets[0]).startswith("self."):
+                        if isinstance(s.value, ast.Name) and s.value.id in params and len(params) == 1:
+                            level_attrs.append(px.dotted(s.targets[0])[5:])
+                        else:
+                            raise Untranslatable("__init__ stores something that is not its one parameter")
+            fn = resolve(cls, "__call__")
+            if fn is None:
+                raise Untranslatable("no __call__")
+            args = [a.arg for a in fn.args.args]
+            if len(args) != 3 or args[0] != "self" or fn.args.vararg or fn.args.kwarg or len(fn.args.defaults) != 1 \
+                    or not (isinstance(fn.args.defaults[0], ast.Constant) and fn.args.defaults[0].value is None):
+                raise Untranslatable("signature %s" % args)
+            tr = _AggTr(T, args[2], level_attrs, module_funcs, util_funcs)
+            text = tr.block(_strip_doc(fn.body), {args[1]: ("array", VEC)})
+            out += "/-- `%s.__call__(array)` (axis=None) -/\ndef c_%s %s :=\n%s\n\n" % (cls.name, lower, sig, text)
+            # the range test of __init__ (the statements `if <test>: verif.util.error(...)`)
+            if level_attrs and init is not None:
+                tests = [s for s in init.body if isinstance(s, ast.If)]
+                if len(tests) != 1 or tests[0].orelse or len(tests[0].body) != 1 or not px.is_error_call(tests[0].body[0]):
+                    raise Untranslatable("__init__ of %s is not one `if <test>: error`" % cls.name)
+                ctx = Ctx(vars={}, self_attrs=dict((a, ("level", NUM)) for a in level_attrs))
+                ctx.vars.update(dict((p, NUM) for p in params))
+                e, t = px.tr_expr(tests[0].test, ctx)
+                if t != BOOL:
+                    raise Untranslatable("__init__ test of type %s" % t)
+                out += "/-- `%s.__init__(%s)`: the test in front of `verif.util.error` -/\ndef initRejects_%s (level : XR) : Bool :=\n  let %s := level\n  %s\n\n" % (
+                    cls.name, params[0], lower, px.lname(params[0]), e)
+        except (Untranslatable, AttributeError, IndexError) as e:
+            out += fail(lower, e, stub)
+        rows.append((lower, nargs))
+
+    # --- the class list `get` walks through: every class of the module but `Aggregator`, by `cls.__name__.lower()`
+    try:
+        if tree is not None:
+            base = by_name.get("Aggregator")
+            if not _same_as(px.find_func(base.body, "name") if base else None, AGG_NAME_TEMPLATE, {"cls"}) \
+                    or any(px.find_func(c.body, "name") is not None for c in classes):
+                raise Untranslatable("Aggregator.name is not cls.__name__.lower() for every class")
+            if not _same_as(module_funcs.get("get_all"), AGG_GETALL_TEMPLATE, {"inspect", "sys", "__name__"}):
+                raise Untranslatable("get_all is not `every class of the module but Aggregator`")
+        out += "/-- `name()` of every class `get_all()` returns, with the number of constructor arguments without default -/\n"
+        out += "def classNames : List (String × Nat) :=\n  [%s]\n\n" % ", ".join('("%s", %d)' % r for r in rows)
+    except (Untranslatable, AttributeError) as e:
+        out += fail("classNames", e, "def classNames : List (String × Nat) :=\n  []")
+
+    out += "/-- the call of the class with this `name()` on a 1-d array; `none` = no such class -/\n"
+    out += "def callByName (T : Tr) (name : String) (level : XR) (array : Vec) : Option (Option XR) :=\n"
+    for lower, _ in rows:
+        out += "  if name == \"%s\" then some (c_%s T level array) else\n" % (lower, lower)
+    out += "  none\n\n"
+    out += "def untranslated : List String := [%s]\n\nend VerifModel.Gen.Agg\n" % ", ".join('"%s"' % n for n in untranslated)
+    report["agg"] = {"functions": len(rows) + 1, "untranslated": untranslated}
+    return T.write_if_changed(os.path.join(T.GEN, "Agg.lean"), out)
